@@ -195,6 +195,19 @@ CHECKS["C14"] = dict(
     design="§7 C14",
 )
 
+CHECKS["C11"] = dict(
+    text=("Lean: the lexicographic order on key tuples is a total preorder (keyLe_total, keyLe_trans), hence the sorted label list is ascending and a permutation "
+          "of the labels (labels_sorted); the specification lists the observed labels ascending with sorting on (spec_labels_sorted) and as a sub-list of the "
+          "first-appearance order with sorting off (spec_labels_first_appearance); shape decision logic: Series iff a single 1-D input (series_iff_single_1d), "
+          "one column per input (columns_one_per_input), column naming keeps positions (colNames), column independence. Correspondence: index levels and "
+          "names, label set and order under sort / observed_only / masks / categorical-with-unused categories, Series name, DataFrame columns and their "
+          "order, each column vs the result for that input alone, for values given as ndarray / named and unnamed Series / polars Series / list / dict / "
+          "DataFrame / 2-D array and keys as arrays, indexed Series or lists."),
+    note="Boolean keys are factorized against the fixed label list [False, True] and are treated like a categorical (category order, also with sort=False); ordering of heterogeneous label types is pandas' (assumed).",
+    technique="Lean 4 proof (order properties + mergeSort lemmas; decision tables by case analysis) + differential correspondence on labelling / shape observables",
+    design="§7 C11",
+)
+
 NOT_APPLICABLE: list[dict] = []
 
 
